@@ -123,9 +123,9 @@ theorem eraseP_of_find_none (q : PodInfo → Bool) (ps : List PodInfo) (h : ps.f
   | nil => rfl
   | cons p ps ih =>
     by_cases hq : q p = true
-    · simp [List.find?_cons, hq] at h
+    · simp [hq] at h
     · simp only [List.find?_cons, hq] at h
-      simp [List.eraseP_cons, hq, ih h]
+      simp [hq, ih h]
 
 /-- the closed form of the from-scratch computation: start values + Σ over the assigned pods. -/
 theorem scratch_eq_sum (cfg : Cfg) (m : Metric) (ut : Option Int) (ps : List PodInfo) :
@@ -203,9 +203,9 @@ theorem get_set (c : Cache) (k k' : Nat) (n : Node) :
     (c.set k n).get k' = if k' = k then n else c.get k' := by
   unfold Cache.set Cache.get
   by_cases h : k' = k
-  · subst h; simp [List.find?_cons]
+  · subst h; simp
   · have : (k == k') = false := by simp; omega
-    simp [List.find?_cons, this, h]
+    simp [this, h]
 
 def CInv (cfg : Cfg) (c : Cache) : Prop := ∀ k, Inv cfg (c.get k)
 
@@ -281,15 +281,22 @@ theorem cache_eq_from_report (cfg : Cfg) (evs : List Ev) (k : Nat) (m : Metric)
   have h := cinv_run cfg evs k m hm
   rw [← h.2]; exact h.1
 
-/-- a fresh cache fed the report and then the same pods one by one computes the same thing:
-`scratch` IS "metric first, then addPod for every pod". -/
+/-- a FRESH cache fed the report and then any pods one by one arrives at the from-scratch value of
+its pod set too; with `cache_eq_from_report` and `scratch_perm`: a long-lived cache and a fresh one
+agree whenever they hold the same report and the same pods, in whatever order they came. -/
 theorem fresh_cache_eq (cfg : Cfg) (m : Metric) (ps : List PodInfo) :
-    (ps.foldl Node.addOrUpdatePod (emptyNode.setMetric cfg m)).metric = some m := by
-  have : ∀ (n : Node), n.metric = some m → (ps.foldl Node.addOrUpdatePod n).metric = some m := by
+    (ps.foldl Node.addOrUpdatePod (emptyNode.setMetric cfg m)).sums =
+      scratch cfg m (reportTime m) (ps.foldl Node.addOrUpdatePod (emptyNode.setMetric cfg m)).pods := by
+  have hI : ∀ (n : Node), Inv cfg n → n.metric = some m →
+      Inv cfg (ps.foldl Node.addOrUpdatePod n) ∧ (ps.foldl Node.addOrUpdatePod n).metric = some m := by
     induction ps with
-    | nil => intro n h; exact h
-    | cons p ps ih => intro n h; exact ih _ (by simpa [Node.addOrUpdatePod] using h)
-  exact this _ rfl
+    | nil => intro n h hm; exact ⟨h, hm⟩
+    | cons p ps ih =>
+      intro n h hm
+      exact ih _ (inv_addOrUpdatePod cfg n p h) (by simpa [Node.addOrUpdatePod] using hm)
+  obtain ⟨hi, hm⟩ := hI _ (inv_setMetric cfg emptyNode m) rfl
+  obtain ⟨h1, h2⟩ := hi m hm
+  rw [← h2]; exact h1
 
 def exactFloat : FloatOps :=
   { scale := fun q f => (q * f + 50) / 100, roundPct := fun e a => (200 * e + a) / (2 * a) }
@@ -538,6 +545,30 @@ theorem filter_pass_sound (cfg : Cfg) (evs : List Ev) (q : FilterQ) (m : Metric)
   rw [hnode]
   obtain ⟨est, he⟩ := existing_some cfg ((run cfg evs).get q.node) (selProfile cfg q).1 (selTyp (selProfile cfg q).2.2) (selDur (selProfile cfg q).2.2) m hm
   exact ⟨est, he, filter_pass_within cfg _ q m est hn hd ht he hx hi hpass⟩
+
+/-! ### the estimator and the shape of the estimate -/
+
+/-- a pod's estimate of a resource never exceeds its limit on that resource. -/
+theorem estimate_le_limit (fl : FloatOps) (cls idx : Nat) (req lim f : Int) (hl : 0 < lim) :
+    estimatedUsedByResource fl cls idx req lim f ≤ lim := by
+  unfold estimatedUsedByResource
+  by_cases hgt : lim > req
+  · have h0 : (lim == 0) = false := by simp; omega
+    simp only [hgt, if_true, h0, Bool.false_eq_true, if_false]
+    split
+    · omega
+    · rename_i h; simp at h; have := h hl; omega
+  · have h0 : (req == 0) = false := by simp; omega
+    simp only [hgt, if_false, h0, Bool.false_eq_true]
+    split
+    · omega
+    · rename_i h; simp at h; have := h hl; omega
+
+/-- every entry a pod adds to a delta sum is non-negative: the estimate of existing pods is never
+below the reported usage it starts from. -/
+theorem delta_nonneg (x : Vec) (y : Option Vec) : ∀ v ∈ delta x y, 0 ≤ v := by
+  intro v hv
+  cases y <;> simp only [delta, List.mem_map] at hv <;> obtain ⟨w, _, rfl⟩ := hv <;> unfold pos <;> split <;> omega
 
 /-! ### non-vacuity -/
 
